@@ -2,8 +2,10 @@ package props
 
 import (
 	"bytes"
+	"encoding/json"
 	"fmt"
 	"math/rand"
+	"sort"
 	"strings"
 
 	"github.com/yuin/goldmark"
@@ -18,12 +20,12 @@ import (
 
 // convResult is the outcome of one conversion executed under recover().
 type convResult struct {
-	Out    []byte
-	Doc    ast.Node
-	Err    error
-	Panic  any
-	Stack  []byte
-	Phase  string // "parse" or "render" when it panicked
+	Out   []byte
+	Doc   ast.Node
+	Err   error
+	Panic any
+	Stack []byte
+	Phase string // "parse" or "render" when it panicked
 }
 
 func (r *convResult) OK() bool { return r.Panic == nil && r.Err == nil }
@@ -168,3 +170,8 @@ func q(b []byte) string {
 }
 
 func newRand(seed int64) *rand.Rand { return rand.New(rand.NewSource(seed)) }
+
+func sortStrings(s []string) { sort.Strings(s) }
+
+func jsonMarshal(v any) ([]byte, error)   { return json.Marshal(v) }
+func jsonUnmarshal(b []byte, v any) error { return json.Unmarshal(b, v) }
